@@ -595,7 +595,7 @@ PROPS_EXTRA['C16']['harness_cfgs'] = ['default', 'simd']
 PROPS_EXTRA['C12']['thm_modules'] = ['EncodingRs.Thm.C12', 'EncodingRs.Thm.C12Hist', 'EncodingRs.Thm.C12State']
 PROPS_EXTRA['C12']['partial'] = [
     'call histories are covered by theorems now (Thm/C12Hist.lean, Thm/C12State.lean: history_output_prefix, complete_history_output, has_pending_iff_history / has_pending_iff_repl_history, history_decodes_complete); the histories are over the encoder MODEL (EHist / EReplHist: Model.erunI / Model.encRepl calls with arbitrary stop budgets) - that every call of the implementation is such a call is the enc correspondence',
-    'raw API: the byte stream considered is the manual procedure (bytes + the numeric character reference appended at each Unmappable; history_output_prefix_raw) or a history in which nothing was reported unmappable so far (history_output_prefix_no_unmappable); a caller who writes NOTHING (or something else) for Unmappable produces a different stream, which output / expected do not describe (example at the end of Thm/C12Hist.lean) - that such a stream still decodes without error is checked by the harness oracle only',
+    'raw API: the byte stream considered is the manual procedure (bytes + the numeric character reference appended at each Unmappable; history_output_prefix_raw) or a history in which nothing was reported unmappable so far (history_output_prefix_no_unmappable); a caller who writes NOTHING for Unmappable produces a different stream, which output / expected do not describe and which for ISO-2022-JP is not even error-free (the encoder returns to ASCII before reporting Unmappable so that the reference is legal; with nothing written the next escape sequence follows immediately and the decoder reports the doubled escape: examples at the end of Thm/C12Hist.lean, confirmed on the real crate) - the documentation of EncoderResult::Unmappable obliges the caller to append a placeholder',
 ]
 PROPS_EXTRA['C12']['assumptions'] = [a for a in PROPS_EXTRA['C12']['assumptions'] if not a.startswith('the byte stream is the one produced with replacement')] + [
     'the byte stream is the one produced with replacement (encode_from_utf8/utf16) or by the documented manual procedure over the raw API: every Unmappable(u) is followed by ncr u (subst = C09Enc.manualBytes, manualBytes_eq_subst; = C03 erefHtml, output_eq_erefHtml)',
